@@ -18,7 +18,7 @@ K3 restored state           trees (rbtree, heap and map reach it through their w
 """
 from .. import astfacts, listrules, treewalk, typestate
 from ..facts import Prover, FactCache, _k, strip_bitcasts
-from ..ir import const_int, resolve_addr
+from ..ir import const_int, resolve_addr, unit_step
 from .util import floc
 
 XTOR_FTY = 'void (i8*, i8*)'
@@ -399,8 +399,7 @@ def _is_field_load(f, ref, struct, field):
 def _decrements(g, struct, field):
     for s in g.all_insts():
         if s.op == 'store' and resolve_addr(g, s.o[1]).fsteps[-1:] == ((struct, field),):
-            v = g.get(s.o[0])
-            if v is not None and v.op == 'add' and const_int(v.o[1]) == (1 << 64) - 1:
+            if unit_step(g, s.o[0])[1] == -1:
                 return True
     return False
 
